@@ -301,7 +301,7 @@ def sequential_oracles(ck):
         return
     for sig, what in res["oracle"]:
         ck.fail_input(sig, what, {"sequential": True})
-    ck.notes["sequential_sequences"] = 5
+    ck.notes["sequential_sequences"] = 10
 
 
 def replay(obj):
